@@ -13,7 +13,7 @@ PROPS = {
                 preds=["ScalarExact", "FlagSemantics", "CalledExact"]),
     "C02": dict(families=["multi-ss", "multi-is", "multi-fs", "multi-sm", "setvalue"], lens={"vals", "err", "rest", "seterr"}, rand=("C02", 6000, 150000),
                 preds=["IntakeCount", "StoredInOrder", "MapStored"]),
-    "C03": dict(families=["conserve", "conserve-n", "deep-ro"], lens={"rest"}, rand=("C03", 6000, 150000),
+    "C03": dict(families=["conserve", "conserve-n", "deep-ro"], lens={"rest", "aliased"}, rand=("C03", 6000, 150000),
                 preds=["Conservation", "UnknownNeverDropped"]),
     "C04": dict(families=["term", "scalar-s"], lens={"rest", "vals", "called", "err"}, rand=("C04", 6000, 150000),
                 preds=["TerminatorRoles", "Frozen (action property)"]),
@@ -37,7 +37,7 @@ PROPS = {
                 preds=["HelpDocComplete (evaluated on the parsed real text)", "HelpDocOf equality", "three paths same text"]),
     "C19": dict(families=["modes", "wrapper", "complete-eq", "tree"], lens={"panic", "hang", "rest", "exits"}, fuzz=(16000, 800000), level="exploration",
                 preds=["NotStuck", "VariantDecreases (action property)", "ErrImpliesNilRest"]),
-    "C20": dict(families=["order", "complete", "complete-eq", "shadow"], lens={"nondet", "err", "derr", "comps", "warn"}, rand=[("C20", 4000, 300000), ("C20c", 2000, 200000)],
+    "C20": dict(families=["order", "complete", "complete-eq", "shadow"], lens={"nondet", "err", "derr", "comps", "warn", "aliased"}, rand=[("C20", 4000, 300000), ("C20c", 2000, 200000)],
                 repeat=6, twice=True, preds=["FixedRule"]),
     "C09": dict(families=["term", "conserve", "inherit", "deep-ro"], lens={"rest", "vals", "called"}, rand=("C09", 6000, 150000),
                 preds=["StopRoles", "PrefixAsUnordered", "NoStopAsUnordered", "Frozen (action property)"]),
